@@ -28,6 +28,14 @@ def inputs(rng, tier):
         text = "".join('const S%d: []char8 = "a%sz";\n' % (b, spell(b, '"')) for b in range(base, base + 16))
         text += "".join("const C%d: char8 = '%s';\n" % (b, spell(b, "'")) for b in range(base, min(base + 16, 128)))
         out.append(("by%d" % base, text + 'import "it\'s/%d.pn";\n' % base, "escapes"))
+    # integer literals at the boundaries of the literal kinds (signed / bit integer) in every spelling
+    blits = []
+    for v in ((1 << 127) - 1, 1 << 127, (1 << 128) - 1, (1 << 63) - 1, 1 << 63, (1 << 64) - 1, 0, 1, 255, 256):
+        for sp in ("%d" % v, "0x%x" % v, "0b" + bin(v)[2:]):
+            for suf in ("", "i128", "u128", "i64", "u64", "u8"):
+                blits.append(sp + suf)
+    for bi in range(0, len(blits), 12):
+        out.append(("bl%d" % bi, "".join("const K%d: u128 = %s;\n" % (j, l) for j, l in enumerate(blits[bi:bi + 12])) + 'const CR: []char8 = "line\\x0d\\n\\r\\u{d}\\t\\x09";\n', "boundary-literals"))
     # references of 125-127 steps (the limit of both generations is 127)
     for n_ in (125, 126, 127):
         out.append(("st%d" % n_, "fn main()\n{\n\tvar y = x%s;\n}\n" % (".a" * n_), "long-references"))
